@@ -6,7 +6,7 @@ from .. import env, coq, runner, gates
 
 LEVEL = 'translation_validation'
 META = dict(
-    text='Coq theorems: a model of the control flow of kak_canonicalize_vector on exact coefficients (any rational multiple of pi/4, any atol) reaches the canonical Weyl chamber for every input, its trace of shifts/negations/swaps replays to the returned vector and each step keeps the implied two-qubit matrix (generic ring), and the validators (reconstructs, count_2q, kak_canonical) are sound; the minimal CNOT/CZ count is modelled as a function of the canonical coefficients (cz_class: 0 at the origin, 1 at (pi/4,0,0), 2 on the rest of the face z=0, 3 elsewhere) with its tolerance-aware validator proved exact at zero tolerance, witness circuits for one and two CNOTs, and the quantity num_cnots_required looks at (trace of u YY u^T YY) proved to be 4(cos2x cos2y cos2z + i sin2x sin2y sin2z) on exp(i(xXX+yYY+zZZ)) and blind to single-qubit gates; on every run the model is compared with cirq.kak_canonicalize_vector by vm_compute (coefficients, phase and the four single-qubit corrections, exactly), and every routine of a frozen list of decomposition / synthesis routines is run on a special-case corpus (identity, local gates, CNOT/iSWAP/SWAP classes, Weyl-chamber vertices/edges/faces, degenerate eigenvalues, +-1e-10..1e-8 perturbations of each boundary) and on seeded random unitaries x option flags; the returned factors / operations are recomposed inside Coq (float instance of the reference semantics) and must reproduce the input within the documented tolerance, with the promised factor forms and gate counts; num_cnots_required, kak_vector, extract_right_diag and two_qubit_matrix_to_cz_isometry are judged on the same corpus against the coefficients each point was built from or against kak_decomposition coefficients validated in the same Coq expression.',
+    text='Coq theorems: a model of the control flow of kak_canonicalize_vector on exact coefficients (any rational multiple of pi/4, any atol) reaches the canonical Weyl chamber for every input, its trace of shifts/negations/swaps replays to the returned vector and each step keeps the implied two-qubit matrix (generic ring), and the validators (reconstructs, count_2q, kak_canonical) are sound; the minimal CNOT/CZ count is modelled as a function of the canonical coefficients (cz_class: 0 at the origin, 1 at (pi/4,0,0), 2 on the rest of the face z=0, 3 elsewhere) with its tolerance-aware validator proved exact at zero tolerance, witness circuits for one and two CNOTs, and the quantity num_cnots_required looks at (trace of u YY u^T YY) proved to be 4(cos2x cos2y cos2z + i sin2x sin2y sin2z) on exp(i(xXX+yYY+zZZ)) and blind to single-qubit gates; on every run the model is compared with cirq.kak_canonicalize_vector by vm_compute (coefficients, phase and the four single-qubit corrections, exactly), and every routine of a frozen list of decomposition / synthesis routines is run on a special-case corpus (identity, local gates, CNOT/iSWAP/SWAP classes, Weyl-chamber vertices/edges/faces, degenerate eigenvalues, +-1e-10..1e-8 perturbations of each boundary) and on seeded random unitaries x option flags; the returned factors / operations are recomposed inside Coq (float instance of the reference semantics) and must reproduce the input within the documented tolerance, with the promised factor forms and gate counts; num_cnots_required, kak_vector, extract_right_diag and two_qubit_matrix_to_cz_isometry are judged on the same corpus against the coefficients each point was built from or against kak_decomposition coefficients validated in the same Coq expression; a frozen set of structured two-qubit unitaries (diagonal incl. one-qubit phase gates on either qubit, tensor products, permutation and phased permutation matrices, singly controlled gates with either control, block-diagonal multiplexers) plus seeded random members of each class meets every two-qubit routine (theorems: with the first qubit in |0> a diagonal diag(a,b,c,d) acts on the columns |00>, |01> as I (x) diag(a,b), the other half diag(a,c) agrees only when b = c); cirq_google.known_2q_op_to_sycamore_operations is exercised gate by gate (CZ/CNOT/ZZ/SWAP/ISWAP/XX/YY powers at exponents +-1, +-0.5, +-0.25, +-1.5, +-2, +-3, 0, 1e-9, +-1 +- 1e-10 and random ones, PhasedISwap, SWAP+ZZ circuit operations, either qubit order, global shifts, tags) against the gate of the shared vocabulary evaluated inside Coq, and the same operations go as matrices through two_qubit_matrix_to_sycamore_operations (theorems: SWAP**-1 = SWAP, ISWAP**-1 is the inverse of ISWAP and no phase multiple of it); the n-qubit routines are also run with the qubits handed over in non-sorted orders.',
     note='Translation validation: the quantifier over unitaries is sampled (corpus + seeded random), the evidence says how. Trusted: Coq kernel; the float instance (binary64 inside vm_compute, no proof about rounding); numpy/scipy/LAPACK inside Cirq; the Python adapters (operation -> Gallina term through the shared gate vocabulary; gates outside it enter through cirq.unitary, counted in the evidence). Where a docstring states no tolerance the routine\'s own atol x 10 is used (listed per routine in ROUTINES).',
     technique='Rocq/Coq proof (lia, ring) of the canonicaliser model and of the validators + vm_compute translation validation of every returned decomposition',
 )
@@ -308,6 +308,116 @@ def name_rng(name):
     return random.Random(zlib.crc32(name.encode()))
 
 
+def _one_qubit_named():
+    I = np.eye(2, dtype=complex)
+    X = np.array([[0, 1], [1, 0]], dtype=complex)
+    Y = np.array([[0, -1j], [1j, 0]])
+    Z = np.diag([1, -1]).astype(complex)
+    H = np.array([[1, 1], [1, -1]], dtype=complex) / math.sqrt(2)
+    S, T = np.diag([1, 1j]), np.diag([1, cmath.exp(0.25j * math.pi)])
+    return dict(I=I, X=X, Y=Y, Z=Z, H=H, S=S, T=T)
+
+
+def rz_m(t):
+    return np.diag([cmath.exp(-0.5j * t), cmath.exp(0.5j * t)])
+
+
+def rx_m(t):
+    return np.array([[math.cos(t / 2), -1j * math.sin(t / 2)], [-1j * math.sin(t / 2), math.cos(t / 2)]])
+
+
+def controlled_on(u, control, value=1):
+    """|v><v| (x) U + |1-v><1-v| (x) I with the control on qubit `control` (0 = first = most significant)."""
+    P1 = np.diag([0, 1]).astype(complex) if value else np.diag([1, 0]).astype(complex)
+    P0 = np.eye(2) - P1
+    return np.kron(P0, np.eye(2)) + np.kron(P1, u) if control == 0 else np.kron(np.eye(2), P0) + np.kron(u, P1)
+
+
+def structured_inputs():
+    """Frozen structured two-qubit unitaries (none of them is generic in the Weyl chamber or has generic local factors): diagonal
+    (incl. one-qubit phase gates on either qubit, d11 != d22), tensor products, all 24 permutation matrices and phased permutations,
+    singly controlled gates with the control on either qubit / on |0>, block-diagonal (multiplexed) unitaries."""
+    g = _one_qubit_named()
+    I = g['I']
+    out = []
+    ph = lambda r, n: [cmath.exp(1j * r.uniform(0, 2 * math.pi)) for _ in range(n)]
+    # ---- diagonal ----
+    for a, b in (('I', 'Z'), ('Z', 'I'), ('I', 'S'), ('S', 'I'), ('I', 'T'), ('T', 'S'), ('S', 'Z')):
+        out.append((f'diagonal:{a}(x){b}', np.kron(g[a], g[b])))
+    out += [('diagonal:rz(0.4)(x)rz(1.3)', np.kron(rz_m(0.4), rz_m(1.3))), ('diagonal:rz(1.3)(x)I', np.kron(rz_m(1.3), I)), ('diagonal:I(x)rz(-2.1)', np.kron(I, rz_m(-2.1))),
+            ('diagonal:diag(1,-1,1,1)', np.diag([1, -1, 1, 1])), ('diagonal:diag(1,1,-1,1)', np.diag([1, 1, -1, 1])), ('diagonal:diag(-1,1,1,1)', np.diag([-1, 1, 1, 1])),
+            ('diagonal:diag(1,i,-1,-i)', np.diag([1, 1j, -1, -1j])), ('diagonal:diag(1,i,1,1)', np.diag([1, 1j, 1, 1])), ('diagonal:diag(1,1,i,1)', np.diag([1, 1, 1j, 1]))]
+    for i in range(3):
+        out.append((f'diagonal:phases#{i}', np.diag(ph(name_rng(f'struct:diag{i}'), 4))))
+    # ---- tensor products ----
+    for a, b in (('X', 'I'), ('I', 'X'), ('Y', 'I'), ('I', 'Y'), ('H', 'I'), ('H', 'H'), ('X', 'X'), ('Y', 'Z'), ('S', 'H'), ('X', 'S')):
+        out.append((f'local:{a}(x){b}', np.kron(g[a], g[b])))
+    r = name_rng('struct:local')
+    out += [('local:haar(x)I', np.kron(gates.random_unitary(r, 2), I)), ('local:I(x)haar', np.kron(I, gates.random_unitary(r, 2))),
+            ('local:rx(0.3)(x)I', np.kron(rx_m(0.3), I)), ('local:I(x)rx(0.3)', np.kron(I, rx_m(0.3))), ('local:X(x)I*phase', cmath.exp(0.7j) * np.kron(g['X'], I)),
+            ('local:rx(2.5)(x)rz(0.9)', np.kron(rx_m(2.5), rz_m(0.9)))]
+    # ---- permutations ----
+    for p in itertools.permutations(range(4)):
+        if p not in ((0, 1, 2, 3), (0, 2, 1, 3), (0, 1, 3, 2), (0, 3, 2, 1), (2, 3, 0, 1), (1, 0, 3, 2), (3, 2, 1, 0)):   # identity, SWAP, CNOT, CNOT-reversed, X(x)I, I(x)X, X(x)X
+            out.append(('perm:' + ''.join(map(str, p)), np.eye(4, dtype=complex)[:, list(p)]))
+    for i, p in enumerate(((1, 0, 3, 2), (2, 3, 1, 0), (0, 2, 1, 3), (3, 0, 1, 2), (1, 2, 3, 0), (0, 1, 3, 2))):
+        out.append((f'phased-perm:{"".join(map(str, p))}#{i}', np.eye(4, dtype=complex)[:, list(p)] @ np.diag(ph(name_rng(f'struct:pperm{i}'), 4))))
+    # ---- controlled ----
+    r = name_rng('struct:ctrl')
+    us = [('X', g['X']), ('Y', g['Y']), ('Z', g['Z']), ('H', g['H']), ('S', g['S']), ('T', g['T']), ('sqrtX', rx_m(math.pi / 2) * cmath.exp(0.25j * math.pi)),
+          ('rx(0.3)', rx_m(0.3)), ('rz(0.3)', rz_m(0.3)), ('haar', gates.random_unitary(r, 2)), ('-I', -I), ('iX', 1j * g['X'])]
+    for k, (n, u) in enumerate(us):
+        if n not in ('X', 'Y', 'Z', 'H'):                     # CNOT, CY, CZ, CH are in the named list
+            out.append((f'controlled:q0-controls-{n}', controlled_on(u, 0)))
+        out.append((f'controlled:q1-controls-{n}', controlled_on(u, 1)))
+        if k % 2 == 0:
+            out.append((f'controlled:q0=0-controls-{n}', controlled_on(u, 0, 0)))
+        else:
+            out.append((f'controlled:q1=0-controls-{n}', controlled_on(u, 1, 0)))
+    # ---- block-diagonal (multiplexers) ----
+    sw = np.eye(4)[[0, 2, 1, 3]]
+    r = name_rng('struct:block')
+    for i in range(3):
+        a, b = gates.random_unitary(r, 2), gates.random_unitary(r, 2)
+        m = np.block([[a, np.zeros((2, 2))], [np.zeros((2, 2)), b]])
+        out.append((f'block-diagonal:haar+haar#{i}', m))
+        out.append((f'block-diagonal:haar+haar#{i}:on-q1', sw @ m @ sw))
+    a = gates.random_unitary(r, 2)
+    z2 = np.zeros((2, 2))
+    out += [('block-diagonal:A+(-A)', np.block([[a, z2], [z2, -a]])), ('block-diagonal:rx(0.3)+rx(-0.3)', np.block([[rx_m(0.3), z2], [z2, rx_m(-0.3)]])),
+            ('block-diagonal:X+Z', np.block([[g['X'], z2], [z2, g['Z']]])), ('block-diagonal:H+iH', np.block([[g['H'], z2], [z2, 1j * g['H']]]))]
+    return [('struct:' + n, np.asarray(u, dtype=complex), None) for n, u in out]
+
+
+def random_structured(rng):
+    """One seeded random member of a structured class."""
+    kind = rng.choice(['diagonal', 'diagonal(x)', 'local', 'local(x)I', 'I(x)local', 'controlled', 'block-diagonal', 'phased-permutation'])
+    I = np.eye(2)
+    ph = lambda n: [cmath.exp(1j * rng.uniform(0, 2 * math.pi)) for _ in range(n)]
+    if kind == 'diagonal':
+        u = np.diag(ph(4))
+    elif kind == 'diagonal(x)':
+        u = np.kron(np.diag(ph(2)), np.diag(ph(2)))
+    elif kind == 'local':
+        u = np.kron(gates.random_unitary(rng, 2), gates.random_unitary(rng, 2))
+    elif kind == 'local(x)I':
+        u = np.kron(gates.random_unitary(rng, 2), I)
+    elif kind == 'I(x)local':
+        u = np.kron(I, gates.random_unitary(rng, 2))
+    elif kind == 'controlled':
+        u = controlled_on(gates.random_unitary(rng, 2), rng.randint(0, 1), rng.randint(0, 1))
+    elif kind == 'block-diagonal':
+        u = np.block([[gates.random_unitary(rng, 2), np.zeros((2, 2))], [np.zeros((2, 2)), gates.random_unitary(rng, 2)]])
+        if rng.random() < 0.5:
+            sw = np.eye(4)[[0, 2, 1, 3]]
+            u = sw @ u @ sw
+    else:
+        p = list(range(4))
+        rng.shuffle(p)
+        u = np.eye(4)[:, p] @ np.diag(ph(4))
+    return 'random:struct:' + kind, np.asarray(u, dtype=complex), None
+
+
 def two_qubit_inputs(ctx, cirq, n_random, full=True):
     """[(class name, 4x4 unitary, kak hint or None)]"""
     rng = ctx.rng
@@ -342,6 +452,7 @@ def two_qubit_inputs(ctx, cirq, n_random, full=True):
             r = name_rng('weyl+locals:' + name)
             g = cmath.exp(1j * r.uniform(0, 2 * math.pi))
             out.append(('weyl+locals:' + name, g * local_pair(r, 'haar') @ core @ local_pair(r, 'haar'), xyz))
+    out += structured_inputs()                  # after the Weyl corpus: the per-index routine selection of the older corpus is unchanged
     for i in range(n_random):
         r = rng.random()
         if r < 0.5:
@@ -356,6 +467,8 @@ def two_qubit_inputs(ctx, cirq, n_random, full=True):
                     m = np.kron(m, np.eye(2)) if rng.random() < 0.5 else np.kron(np.eye(2), m)
                 u = m @ u
             out.append(('random:library-product', u, None))
+    for i in range(max(8, (3 * n_random) // 10)):
+        out.append(random_structured(rng))
     return out
 
 
@@ -435,6 +548,8 @@ class Conv:
                 return gates.G(fam, dict(e=float(g.exponent), s=float(g.global_shift)), shape)
         if isinstance(g, c.FSimGate):
             return gates.G('FSim', dict(theta=float(g.theta), phi=float(g.phi)), (2, 2))
+        if isinstance(g, c.PhasedISwapPowGate):
+            return gates.G('PhasedISwap', dict(p=float(g.phase_exponent), e=float(g.exponent)), (2, 2))
         if isinstance(g, c.PhasedXPowGate):
             return gates.G('PhasedX', dict(p=float(g.phase_exponent), e=float(g.exponent), s=float(g.global_shift)), (2,))
         if isinstance(g, c.PhasedXZGate):
@@ -490,9 +605,13 @@ def residual(a, b, phase):
     return float(np.max(np.abs(a - b)))
 
 
-def add_ops_checks(ctx, conv, checks, routine, opts, name, u, ops, qubits, tol, phase, count=None, nontrivial=True, extra=None, cmp=None):
+def add_ops_checks(ctx, conv, checks, routine, opts, name, u, ops, qubits, tol, phase, count=None, nontrivial=True, extra=None, cmp=None,
+                   uterm=None, alt=None):
     """count: (bound, exact: bool, native predicate, text) or None.  Appends the Coq comparisons for one returned op list.
-    cmp: (validator name, text) replacing the comparison of the whole unitary (isometries compare the columns that matter)."""
+    cmp: (validator name, text) replacing the comparison of the whole unitary (isometries compare the columns that matter).
+    uterm: the reference matrix as a Gallina term (a gate of the shared vocabulary evaluated inside Coq) instead of the literal of u.
+    alt: (validator name, signature, note): a weaker comparison evaluated only when the documented one fails; if it holds, the failure
+    is reported under that signature (it classifies a failure, it never excuses one)."""
     cirq = conv.cirq
     ops = list(cirq.flatten_to_ops(ops))
     rep = dict(kind='synth', routine=routine, opts=opts, input_class=name, matrix=cmat(u))
@@ -514,10 +633,12 @@ def add_ops_checks(ctx, conv, checks, routine, opts, name, u, ops, qubits, tol, 
         res = None
     what = (f'{stream} on {name}: {cmp[1] if cmp else "the product of the returned operations differs from the input"}'
             f'{" (up to global phase)" if phase else ""} by more than the documented tolerance {tol:g} (numpy estimate of the residual: {res})')
-    checks.append((stream, f'{cmpf} {fl(tol)} {gates.nlist([2] * n)} {term} {gates.fmat(u)}', what,
-                   dict(rep, signature=f'{routine}:reconstruct:' + (extra or {}).get('sig_prefix', '') + cls(name), loose=f'{cmpf} {fl(10 * tol)} {gates.nlist([2] * n)} {term} {gates.fmat(u)}',
-                        loose2=f'{cmpf} {fl(1e-6)} {gates.nlist([2] * n)} {term} {gates.fmat(u)}' if 10 * tol < 1e-6 else 'false',
-                        loose_signature=f'{routine}:reconstruct:within-10x-tolerance')))
+    um = uterm if uterm is not None else gates.fmat(u)
+    more = dict(alt=f'{alt[0]} {fl(tol)} {gates.nlist([2] * n)} {term} {um}', alt_signature=alt[1], alt_note=alt[2]) if alt else {}
+    checks.append((stream, f'{cmpf} {fl(tol)} {gates.nlist([2] * n)} {term} {um}', what,
+                   dict(rep, signature=f'{routine}:reconstruct:' + (extra or {}).get('sig_prefix', '') + cls(name), loose=f'{cmpf} {fl(10 * tol)} {gates.nlist([2] * n)} {term} {um}',
+                        loose2=f'{cmpf} {fl(1e-6)} {gates.nlist([2] * n)} {term} {um}' if 10 * tol < 1e-6 else 'false',
+                        loose_signature=f'{routine}:reconstruct:within-10x-tolerance', **more)))
     if count is not None:
         bound, exact, native, text = count
         n2 = sum(1 for o in ops if len(o.qubits) >= 2)
@@ -657,30 +778,43 @@ def run_2q(ctx, cirq, mods, conv, checks, routine, opts, name, u, hint):
         raise KeyError(routine)
 
 
+def is_structured(name):
+    return name.startswith('struct:') or name.startswith('random:struct:')
+
+
 def synth2q_stream(ctx, cirq, mods, conv, inputs, checks, sub):
     fn = list(FSIMS)
     CZ, SQ, F4 = 'two_qubit_matrix_to_cz_operations', 'two_qubit_matrix_to_sqrt_iswap_operations', 'decompose_two_qubit_interaction_into_four_fsim_gates'
     for k, (name, u, hint) in enumerate(inputs):
         special = not name.startswith('random')
         rng = name_rng(name) if special else ctx.rng
+        every = k % sub == 0
+        routines = every or is_structured(name)              # structured inputs meet every routine; the extra flag combinations rotate over them
         sq = lambda **kw: (SQ, dict(dict(required_sqrt_iswap_count=None, use_sqrt_iswap_inv=False, clean_operations=False, atol=1e-8), **kw))
         todo = [(CZ, dict(allow_partial_czs=False, clean_operations=True, atol=1e-8)), (CZ, dict(allow_partial_czs=True, clean_operations=True, atol=1e-8)),
                 sq(), (F4, dict(fsim_gate=fn[0]))]
-        if k % sub == 0:
+        if every:
             todo += [(CZ, dict(allow_partial_czs=False, clean_operations=False, atol=1e-8)), (CZ, dict(allow_partial_czs=True, clean_operations=False, atol=1e-8)),
                      (CZ, dict(allow_partial_czs=rng.random() < 0.5, clean_operations=rng.random() < 0.5, atol=rng.choice([1e-6, 1e-10, 1e-5]))),
                      sq(required_sqrt_iswap_count=rng.choice([0, 1])), sq(use_sqrt_iswap_inv=True, clean_operations=True, atol=rng.choice([1e-8, 1e-6])),
                      (F4, dict(fsim_gate=rng.choice(fn[1:])))]
-        if special or k % sub == 0:
+        elif is_structured(name):
+            todo += [[(CZ, dict(allow_partial_czs=False, clean_operations=False, atol=1e-8)), (CZ, dict(allow_partial_czs=True, clean_operations=False, atol=1e-8)),
+                      (CZ, dict(allow_partial_czs=rng.random() < 0.5, clean_operations=rng.random() < 0.5, atol=rng.choice([1e-6, 1e-10, 1e-5]))),
+                      sq(required_sqrt_iswap_count=rng.choice([0, 1])), sq(use_sqrt_iswap_inv=True, clean_operations=True, atol=rng.choice([1e-8, 1e-6])),
+                      (F4, dict(fsim_gate=rng.choice(fn[1:])))][k % 6]]
+        if special or routines:
             todo += [sq(required_sqrt_iswap_count=3) if k % 2 else sq(required_sqrt_iswap_count=2, use_sqrt_iswap_inv=rng.random() < 0.5, clean_operations=rng.random() < 0.5)]
-        if (special and k % 2 == 0) or k % sub == 0:
+        if (special and k % 2 == 0) or routines:
             todo += [('two_qubit_matrix_to_ion_operations', dict(clean_operations=k % 3 != 0))]
-        if (special and k % 4 == 1) or k % sub == 0:
+        if (special and k % 4 == 1) or routines:
             todo += [('two_qubit_matrix_to_diagonal_and_cz_operations', dict(allow_partial_czs=rng.random() < 0.5))]
-        if (special and k % 4 == 3) or k % sub == 0:
+        if (special and k % 4 == 3) or routines:
             todo += [('two_qubit_matrix_to_sycamore_operations', dict(clean_operations=k % 8 != 3))]
         for routine, opts in todo:
             run_2q(ctx, cirq, mods, conv, checks, routine, opts, name, u, hint)
+        if k % 25 == 0:
+            tick()
 
 
 # =====================================================================================================
@@ -816,16 +950,141 @@ def class_stream(ctx, cirq, mods, conv, inputs, checks, sub):
     for k, (name, u, hint) in enumerate(inputs):
         special = not name.startswith('random')
         rng = name_rng('class:' + name) if special else ctx.rng
+        every = k % sub == 0
+        routines = every or is_structured(name)
         run_class(ctx, cirq, mods, conv, checks, NC, {}, name, u, hint)
         if batch is not None:
             run_class(ctx, cirq, mods, conv, checks, KV, dict(form='array'), name, u, hint, batch_row=batch[k])
-        if k % sub == 0:
+        if every:
             run_class(ctx, cirq, mods, conv, checks, NC, dict(atol=rng.choice([1e-6, 1e-10, 1e-7])), name, u, hint)
             run_class(ctx, cirq, mods, conv, checks, KV, {}, name, u, hint)
-        if (special and k % 2 == 0) or k % sub == 0:
+        if (special and k % 2 == 0) or routines:
             run_class(ctx, cirq, mods, conv, checks, RD, {}, name, u, hint)
-        if (special and k % 4 == 2) or k % sub == 0:
+        if (special and k % 4 == 2) or routines:
             run_class(ctx, cirq, mods, conv, checks, ISO, dict(allow_partial_czs=k % 8 == 2, atol=1e-8, clean_operations=rng.random() < 0.5), name, u, hint)
+        if is_structured(name):
+            # the isometry acts on the q0 = |0> half only: every structured input also meets the complementary flags
+            run_class(ctx, cirq, mods, conv, checks, ISO, dict(allow_partial_czs=k % 8 != 2, atol=1e-8, clean_operations=k % 2 == 0), name, u, hint)
+        if k % 50 == 0:
+            tick()
+
+
+# =====================================================================================================
+# Stream 3c: the known-gate dispatch of the Sycamore synthesis (cirq_google.known_2q_op_to_sycamore_operations), gate by gate
+# =====================================================================================================
+ROUTINES.update({
+    'known_2q_op_to_sycamore_operations': 'docstring: for a known operation (a CircuitOperation of length 2 holding SWAP and a ZZPowGate; PhasedISwapPowGate with exponent = 1 or '
+                                          'phase_exponent = 0.25; cirq.SWAP, cirq.ISWAP; CNotPowGate, CZPowGate, ZZPowGate) "a cirq.OP_TREE that implements the given known operation using only '
+                                          'cirq_google.SYC + single qubit rotations", None "if op is not a known operation". Whatever is returned must have the unitary of the operation up to '
+                                          'phase (reference: the gate of the shared vocabulary evaluated inside Coq from its parameters on the operation\'s qubits) and SYC as only multi-qubit '
+                                          'gate; None is a failure only for a member of the documented list. No tolerance stated (exponents within 1e-9 of 1 are treated as 1): 1e-8 x 10 = 1e-7. '
+                                          'Every grid operation is also sent as a matrix through two_qubit_matrix_to_sycamore_operations.',
+})
+KNOWN_EXPS = [1.0, -1.0, 0.5, -0.5, 0.25, -0.25, 1.5, -1.5, 2.0, -2.0, 3.0, -3.0, 0.0, 1e-9, 1 + 1e-10, 1 - 1e-10, -1 + 1e-10, -1 - 1e-10, 1 + 1e-8, 0.37, -0.81]
+KNOWN_FAMS = ['CZPow', 'CXPow', 'ZZPow', 'SwapPow', 'ISwapPow']
+UNKNOWN_FAMS = ['XXPow', 'YYPow']
+
+
+def known_name(spec):
+    f = spec['fam']
+    core = f'{f}(p={spec["p"]!r},e={spec["e"]!r})' if f == 'PhasedISwap' else f'FSim({spec["theta"]!r},{spec["phi"]!r})' if f == 'FSim' else f if f == 'Sycamore' else f'{f}(e={spec["e"]!r})'
+    return (core + (f':shift={spec["s"]!r}' if spec.get('s') else '') + (':reversed' if spec.get('order') == [1, 0] else '') + (':tagged' if spec.get('tagged') else '')
+            + (f':{spec["wrap"]}' if spec.get('wrap') else ''))
+
+
+def known_documented(spec):
+    """Is the operation a member of the docstring's list of known gates (so that None is not an acceptable answer)?"""
+    f = spec['fam']
+    if spec.get('wrap'):
+        return True
+    if f in ('CZPow', 'CXPow', 'ZZPow'):
+        return True
+    if f in ('SwapPow', 'ISwapPow'):
+        return spec['e'] == 1.0 and not spec.get('s')
+    if f == 'PhasedISwap':
+        return spec['e'] == 1.0 or spec['p'] == 0.25
+    return False
+
+
+def known_specs(ctx, scale=1):
+    out = []
+    k = 0
+    for f in KNOWN_FAMS + UNKNOWN_FAMS:
+        for e in KNOWN_EXPS if f in KNOWN_FAMS else [1.0, -1.0, 0.5, -0.5, 0.37]:
+            k += 1
+            out.append(dict(fam=f, e=e, s=0.0, order=[0, 1]))
+            if k % 2 == 0 or abs(abs(e) - 1) < 1e-7:
+                out.append(dict(fam=f, e=e, s=0.0, order=[1, 0]))
+            if k % 5 == 0 or abs(e) in (1.0, 0.5):
+                out.append(dict(fam=f, e=e, s=[0.3, -0.5, 0.25][k % 3], order=[0, 1], tagged=k % 2 == 0))
+        for _ in range(2 * scale):
+            out.append(dict(fam=f, e=gates.draw_exp(ctx.rng), s=0.0, order=[0, 1] if ctx.rng.random() < 0.5 else [1, 0]))
+            out.append(dict(fam=f, e=round(ctx.rng.uniform(-4, 4), 6), s=0.0, order=[0, 1] if ctx.rng.random() < 0.5 else [1, 0], tagged=True))
+    for p in (0.25, -0.25, 0.0, 0.5, 0.1, -0.7, 1.0, 0.75, 1.25):
+        for e in (1.0, -1.0, 0.5, -0.5, 0.3, 2.0, 0.0, 1 + 1e-10):
+            if p == 0.25 or e in (1.0, -1.0, 0.5, 1 + 1e-10):
+                out.append(dict(fam='PhasedISwap', p=p, e=e, order=[0, 1] if (len(out) % 3) else [1, 0]))
+    for _ in range(4 * scale):
+        out.append(dict(fam='PhasedISwap', p=0.25, e=round(ctx.rng.uniform(-2, 2), 6), order=[0, 1]))
+        out.append(dict(fam='PhasedISwap', p=round(ctx.rng.uniform(-1, 1), 6), e=1.0, order=[1, 0]))
+    for e in (1.0, -1.0, 0.5, -0.5, 0.3, 0.0, 1.5, round(ctx.rng.uniform(-2, 2), 6)):
+        out.append(dict(fam='ZZPow', e=e, s=0.0, order=[0, 1], wrap='swap+zz'))
+        out.append(dict(fam='ZZPow', e=e, s=0.0, order=[1, 0], wrap='zz+swap'))
+    out += [dict(fam='FSim', theta=math.pi / 2, phi=math.pi / 6, order=[0, 1]), dict(fam='FSim', theta=math.pi / 2, phi=0.0, order=[0, 1]), dict(fam='FSim', theta=0.0, phi=math.pi, order=[1, 0]),
+            dict(fam='Sycamore', order=[0, 1]), dict(fam='Sycamore', order=[1, 0])]
+    return out
+
+
+def run_known(ctx, cirq, mods, conv, checks, spec, matrix_route=False):
+    routine = 'known_2q_op_to_sycamore_operations'
+    cg = mods['cirq_google']
+    q = cirq.LineQubit.range(2)
+    f = spec['fam']
+    name = known_name(spec)
+    if f == 'PhasedISwap':
+        g = gates.G(f, dict(p=spec['p'], e=spec['e']), (2, 2))
+    elif f == 'FSim':
+        g = gates.G(f, dict(theta=spec['theta'], phi=spec['phi']), (2, 2))
+    elif f == 'Sycamore':
+        g = gates.G(f, {}, (2, 2))
+    else:
+        g = gates.G(f, dict(e=spec['e'], s=spec.get('s', 0.0)), (2, 2))
+    order = spec.get('order', [0, 1])
+    op = g.cirq_gate(cirq, mods).on(q[order[0]], q[order[1]])
+    ref = [f'({g.coq()}, {gates.nlist(order)})']
+    plain = [op]
+    if spec.get('wrap'):
+        sw = cirq.SWAP.on(q[order[0]], q[order[1]])
+        swt = f'({gates.G("SwapPow", dict(e=1.0, s=0.0), (2, 2)).coq()}, {gates.nlist(order)})'
+        plain = [sw, op] if spec['wrap'] == 'swap+zz' else [op, sw]
+        ref = [swt] + ref if spec['wrap'] == 'swap+zz' else ref + [swt]
+        op = cirq.CircuitOperation(cirq.FrozenCircuit(plain))
+    if spec.get('tagged'):
+        op = op.with_tags('tag')
+    uterm = f'(circ_unitary FOps [2; 2]%nat [{"; ".join(ref)}])'
+    u = numpy_unitary(cirq, plain, q)
+    rep = dict(kind='known', routine=routine, input_class=name, spec=spec, matrix=cmat(u))
+    try:
+        tree = cg.known_2q_op_to_sycamore_operations(op)
+        ops = None if tree is None else list(cirq.flatten_to_ops(tree))
+    except Exception as e:
+        ctx.violation(f'{routine}:raises:{name}', f'{routine}({op!r}) raised {type(e).__name__}: {e}', rep)
+        ops = False
+    if ops is None:
+        ctx.count(routine + ':None', [name], True, sample=dict(operation=repr(op), returned=None))
+        if known_documented(spec):
+            ctx.violation(f'{routine}:form:{name}', f'{routine}({op!r}) returned None although the operation belongs to the documented list of known gates', rep)
+    elif ops is not False:
+        add_ops_checks(ctx, conv, checks, routine, {}, name, u, ops, q, 1e-7, True,
+                       (10 ** 6, False, lambda o: isinstance(o.gate, cg.SycamoreGate), 'SYC must be the only multi-qubit gate'), True,
+                       extra=dict(kind='known', spec=spec), uterm=uterm)
+    if matrix_route:
+        run_2q(ctx, cirq, mods, conv, checks, 'two_qubit_matrix_to_sycamore_operations', dict(clean_operations=len(name) % 2 == 0), 'gate:' + name, u, None)
+
+
+def known_syc_stream(ctx, cirq, mods, conv, checks, scale=1):
+    for spec in known_specs(ctx, scale):
+        run_known(ctx, cirq, mods, conv, checks, spec, matrix_route=spec.get('order') == [0, 1] and not spec.get('tagged') and not spec.get('s'))
 
 
 # =====================================================================================================
@@ -1124,27 +1383,52 @@ def is_cx_or_cz(cirq):
     return lambda op: isinstance(op.gate, (cirq.CZPowGate, cirq.CXPowGate)) and abs(float(op.gate.exponent) - 1) < 1e-12 and len(op.qubits) == 2
 
 
-def run_nq(ctx, cirq, mods, conv, checks, routine, opts, name, u):
+def unitary_support(u):
+    """Positions (0 = most significant) of the qubits the unitary acts on non-trivially: u = v (x) I_j exactly for every other j."""
     u = np.asarray(u, dtype=complex)
     n = int(round(math.log2(u.shape[0])))
-    q = cirq.LineQubit.range(n)
+    t = u.reshape((2,) * (2 * n))
+    out = []
+    for j in range(n):
+        m = np.moveaxis(t, (j, n + j), (0, 1))
+        if not (np.allclose(m[0, 1], 0, atol=1e-12) and np.allclose(m[1, 0], 0, atol=1e-12) and np.allclose(m[0, 0], m[1, 1], atol=1e-12)):
+            out.append(j)
+    return out
+
+
+QSD_ALT = ('reconstructs_phase_f', 'quantum_shannon_decomposition:global-phase:qubits-not-in-sorted-order',
+           'the product equals the input up to a global phase only, for a `qubits` argument that is not in sorted order: the documented "preserving global phase" is lost')
+
+
+def run_nq(ctx, cirq, mods, conv, checks, routine, opts, name, u):
+    """opts['order'] (optional): the qubits handed to the routine are LineQubit(i) for i in order, most significant first."""
+    u = np.asarray(u, dtype=complex)
+    n = int(round(math.log2(u.shape[0])))
+    order = list(opts.get('order') or range(n))
+    q = [cirq.LineQubit(i) for i in order]
     nt = 'identity' not in name
     rep = dict(kind='nq', routine=routine, opts=opts, input_class=name, matrix=cmat(u))
+    pre = dict(sig_prefix='order=' + ','.join(map(str, order)) + ':') if order != sorted(order) else None
     try:
         if routine == 'three_qubit_matrix_to_operations':
             ops = cirq.three_qubit_matrix_to_operations(q[0], q[1], q[2], u)
-            add_ops_checks(ctx, conv, checks, routine, opts, name, u, ops, q, 1e-8, True, (20, False, is_cx_or_cz(cirq), 'at most 20 CZ/CNOT and no other multi-qubit gate'), nt)
+            add_ops_checks(ctx, conv, checks, routine, opts, name, u, ops, q, 1e-8, True, (20, False, is_cx_or_cz(cirq), 'at most 20 CZ/CNOT and no other multi-qubit gate'), nt, extra=pre)
         elif routine == 'quantum_shannon_decomposition':
             ops = list(cirq.quantum_shannon_decomposition(q, u))
             add_ops_checks(ctx, conv, checks, routine, opts, name, u, ops, q, 1e-7, False,
                            (shende_count(n), False, lambda op: len(op.qubits) == 2 and (isinstance(op.gate, cirq.CZPowGate) or is_cx_or_cz(cirq)(op)),
-                            f'at most {shende_count(n)} CZ-family/CNOT gates for {n} qubits and no other multi-qubit gate'), nt)
+                            f'at most {shende_count(n)} CZ-family/CNOT gates for {n} qubits and no other multi-qubit gate'), nt, extra=pre,
+                           alt=QSD_ALT if pre else None)
         else:
             raise KeyError(routine)
     except KeyError:
         raise
     except Exception as e:
-        ctx.violation(f'{routine}:raises:{cls(name)}', f'{routine} raised {type(e).__name__}: {e} on {name}', rep)
+        sup = unitary_support(u)
+        # a failure on a unitary that leaves some qubits alone is reported under the support (a property of the input matrix), not the corpus name
+        where = f'{(pre or {}).get("sig_prefix", "")}{cls(name)}' if len(sup) == n else f'{type(e).__name__}:{n}-qubit-input-acting-only-on-qubits{sup}'
+        ctx.violation(f'{routine}:raises:{where}', f'{routine}({[str(x) for x in q]}, u) raised {type(e).__name__}: {e} on {name}'
+                      + ('' if len(sup) == n else f' (the matrix acts as the identity on all but positions {sup} of `qubits`)'), rep)
 
 
 def controlled_matrix(u, nc, nf=0):
@@ -1284,18 +1568,40 @@ def nq_stream(ctx, cirq, mods, conv, inputs1, inputs2, checks, scale):
               ('CCZ**0.5', cirq.unitary(cirq.CCZ ** 0.5)), ('C-iswap', controlled_matrix(np.eye(2), 0) if False else np.block([[np.eye(4), np.zeros((4, 4))], [np.zeros((4, 4)), twos['ISWAP']]]))]
     for i in range(3 * scale):
         named3.append(('random:haar8', gates.random_unitary(rng, 8)))
-    for name, u in named3:
+    # structured three-qubit unitaries: tensor products, permutations, multiplexers, a gate on two of the three qubits
+    r3 = name_rng('struct:3q')
+    h2, h4a, h4b = gates.random_unitary(r3, 2), gates.random_unitary(r3, 4), gates.random_unitary(r3, 4)
+    z4 = np.zeros((4, 4))
+    named3 += [('struct:I(x)I(x)X', k3(np.eye(4), ones['X'])), ('struct:X(x)I(x)I', k3(ones['X'], np.eye(4))), ('struct:I(x)X(x)I', k3(k3(ones['identity'], ones['X']), ones['identity'])),
+               ('struct:perm8', np.eye(8)[[3, 1, 4, 0, 5, 7, 6, 2]]), ('struct:phased-perm8', np.eye(8)[[6, 2, 0, 7, 1, 4, 3, 5]] @ np.diag(np.exp(1j * np.array([r3.uniform(0, 6.28) for _ in range(8)])))),
+               ('struct:haar4+haar4', np.block([[h4a, z4], [z4, h4b]])), ('struct:haar2(x)haar4', k3(h2, h4a)), ('struct:haar4(x)haar2', k3(h4b, h2)),
+               ('struct:controlled-haar4', np.block([[np.eye(4), z4], [z4, h4a]])), ('struct:diag8:phases', np.diag(np.exp(1j * np.array([r3.uniform(0, 6.28) for _ in range(8)])))),
+               ('struct:Z(x)S(x)T', k3(k3(ones['Z'], ones['S']), ones['T'])), ('struct:CNOT-on-q0,q2', np.eye(8)[[0, 1, 2, 3, 5, 4, 7, 6]])]
+    perms3 = [[2, 1, 0], [1, 0, 2], [0, 2, 1], [2, 0, 1], [1, 2, 0]]
+    for k, (name, u) in enumerate(named3):
         run_nq(ctx, cirq, mods, conv, checks, 'three_qubit_matrix_to_operations', {}, name, u)
         run_nq(ctx, cirq, mods, conv, checks, 'quantum_shannon_decomposition', {}, '3q:' + name, u)
+        # the same matrices with the qubits handed over in a non-sorted order ("list of qubits in order of significance")
+        run_nq(ctx, cirq, mods, conv, checks, 'quantum_shannon_decomposition', dict(order=perms3[k % 5]), '3q:' + name, u)
+        if k % 3 == 0:
+            run_nq(ctx, cirq, mods, conv, checks, 'three_qubit_matrix_to_operations', dict(order=perms3[(k + 2) % 5]), name, u)
     for name in ['identity', 'X', 'H', 'T', 'ry(pi)+1e-09*rz(0.7)', 'clifford#7', 'rz(2pi)-1e-08']:
         run_nq(ctx, cirq, mods, conv, checks, 'quantum_shannon_decomposition', {}, '1q:' + name, ones[name])
     for name in ['identity', 'CNOT', 'CZ', 'ISWAP', 'SWAP', 'SQRT_ISWAP', 'XX', 'ZZ**0.25', 'CH', 'local:haar#0', 'weyl:vertex:iswap:x+1e-08', 'weyl:edge:cnot-swap:x+1e-09',
                  'weyl:interior', 'weyl+locals:face:x=pi/4,z<0', 'weyl+locals:vertex:swap', 'degenerate:diag(1,1,-1,-1)']:
         run_nq(ctx, cirq, mods, conv, checks, 'quantum_shannon_decomposition', {}, '2q:' + name, twos[name])
+        run_nq(ctx, cirq, mods, conv, checks, 'quantum_shannon_decomposition', dict(order=[1, 0]), '2q:' + name, twos[name])
+    for k, name in enumerate(n for n in twos if n.startswith('struct:')):
+        run_nq(ctx, cirq, mods, conv, checks, 'quantum_shannon_decomposition', {}, '2q:' + name, twos[name])
+        if k % 3 == 0:
+            run_nq(ctx, cirq, mods, conv, checks, 'quantum_shannon_decomposition', dict(order=[1, 0]), '2q:' + name, twos[name])
     for i in range(2 * scale):
-        run_nq(ctx, cirq, mods, conv, checks, 'quantum_shannon_decomposition', {}, 'random:haar4', gates.random_unitary(rng, 4))
+        u = gates.random_unitary(rng, 4)
+        run_nq(ctx, cirq, mods, conv, checks, 'quantum_shannon_decomposition', {}, 'random:haar4', u)
+        run_nq(ctx, cirq, mods, conv, checks, 'quantum_shannon_decomposition', dict(order=[1, 0]), 'random:haar4', u)
     for name, u in [('4q:identity', np.eye(16)), ('4q:CNOT(x)ISWAP', np.kron(twos['CNOT'], twos['ISWAP'])), ('4q:random:haar16', gates.random_unitary(rng, 16))]:
         run_nq(ctx, cirq, mods, conv, checks, 'quantum_shannon_decomposition', {}, name, u)
+    run_nq(ctx, cirq, mods, conv, checks, 'quantum_shannon_decomposition', dict(order=[3, 1, 0, 2]), '4q:CNOT(x)ISWAP', np.kron(twos['CNOT'], twos['ISWAP']))
     # ---- multi-controlled ----
     mats = ['X', 'Z', 'H', 'T', 'identity', '-identity', 'i*identity', 'rx(pi/2)', 'ry(0.3)', 'rz(pi)', 'rx(0)+1e-09', 'clifford#11', 'X*phase', 'Y**0.5']
     for k, nm in enumerate(mats):
@@ -1368,7 +1674,47 @@ def nq_stream(ctx, cirq, mods, conv, inputs1, inputs2, checks, scale):
 
 
 # =====================================================================================================
-def evaluate(ctx, checks):
+class Pipeline:
+    """Evaluates the Coq expressions of `checks` shard by shard in background threads (each shard is a coqc process) while the streams keep
+    producing more: the verdicts are the same as those of one evaluation at the end, only the wall time differs."""
+    SH = 150
+
+    def __init__(self, ctx, checks, workers=12):
+        from concurrent.futures import ThreadPoolExecutor
+        self.ctx, self.checks, self.done, self.futs, self.names = ctx, checks, 0, [], []
+        coq.coq_eval(f'c15_warm_{ctx.seed}', PRE + 'Eval vm_compute in true.\n')        # builds the dependencies once, under the lock
+        self.names.append((f'c15_warm_{ctx.seed}', None))
+        self.ex = ThreadPoolExecutor(max_workers=workers)
+
+    def flush(self, final=False):
+        n = len(self.checks)
+        while n - self.done >= self.SH or (final and n > self.done):
+            part = self.checks[self.done:self.done + self.SH]
+            text = PRE + 'Definition checks : list bool := [\n' + ';\n'.join(c[1] for c in part) + '].\nEval vm_compute in failing (fun b => b) checks.\n'
+            name = f'c15_a_{self.ctx.seed}_{self.done // self.SH}'
+            self.names.append((name, None))
+            self.futs.append((self.done, self.ex.submit(coq.coq_eval, name, text)))
+            self.done += len(part)
+
+    def finish(self):
+        """-> indices into checks of the expressions that evaluated to false"""
+        self.flush(final=True)
+        try:
+            return [s0 + i for s0, f in self.futs for i in coq.parse_nat_list(coq.parse_evals(f.result())[0])]
+        finally:
+            self.ex.shutdown(wait=True)
+            drop_case_files(self.names)
+
+
+PIPE = None
+
+
+def tick():
+    if PIPE is not None:
+        PIPE.flush()
+
+
+def evaluate(ctx, checks, pipe=None):
     SH = 150
 
     def run_shards(exprs, tag):
@@ -1382,7 +1728,7 @@ def evaluate(ctx, checks):
             drop_case_files(shards)
         return [si * SH + idx for si, out in enumerate(outs) for idx in coq.parse_nat_list(coq.parse_evals(out)[0])]
 
-    failing = [checks[i] for i in run_shards([c[1] for c in checks], 'a')]
+    failing = [checks[i] for i in (pipe.finish() if pipe is not None else run_shards([c[1] for c in checks], 'a'))]
     # classify reconstruction failures: beyond the documented tolerance but within 10x of it, or worse
     second = [c for c in failing if 'loose' in c[3]]
     still = set(run_shards([c[3]['loose'] for c in second], 'b')) if second else set()
@@ -1390,13 +1736,20 @@ def evaluate(ctx, checks):
     third = [c for k, c in enumerate(second) if k in still and 'loose2' in c[3]]
     still3 = set(run_shards([c[3]['loose2'] for c in third], 'c')) if third else set()
     minor.update({id(c): '1e-6' for k, c in enumerate(third) if k not in still3})
+    fourth = [c for c in failing if 'alt' in c[3] and id(c) not in minor]
+    still4 = set(run_shards([c[3]['alt'] for c in fourth], 'd')) if fourth else set()
+    alt_ok = {id(c) for k, c in enumerate(fourth) if k not in still4}
     for c in failing:
         stream, _, desc, rep = c
         rep = dict(rep)
         sig = rep.pop('signature')
-        rep.pop('loose', None), rep.pop('loose2', None), rep.pop('sig_prefix', None)
+        rep.pop('loose', None), rep.pop('loose2', None), rep.pop('sig_prefix', None), rep.pop('alt', None)
         loose_sig = rep.pop('loose_signature', None)
-        if minor.get(id(c)) == '10x':
+        alt_sig, alt_note = rep.pop('alt_signature', None), rep.pop('alt_note', None)
+        if id(c) in alt_ok:
+            sig = alt_sig
+            desc += f' [{alt_note}]'
+        elif minor.get(id(c)) == '10x':
             sig = loose_sig
             desc += ' [residual within 10x the documented tolerance]'
         elif minor.get(id(c)) == '1e-6':
@@ -1408,7 +1761,8 @@ def evaluate(ctx, checks):
 def run(ctx):
     mods = env.import_cirq(('cirq_google',))
     cirq = mods['cirq']
-    ctx.rule = ('each routine of the frozen list (coverage.routines) x [special-case corpus: identity, local gates, CNOT/CZ/iSWAP/sqrt-iSWAP/SWAP classes, '
+    ctx.rule = ('each routine of the frozen list (coverage.routines) x [special-case corpus: identity, local gates, CNOT/CZ/iSWAP/sqrt-iSWAP/SWAP classes, structured unitaries '
+                '(diagonal, tensor products, (phased) permutations, controlled, block-diagonal; every routine on each), the known-gate grid of the Sycamore dispatch, non-sorted qubit orders, '
                 '29 named Weyl-chamber points (vertices, edges, faces, interior, B, sqrt-iSWAP region boundary) bare and dressed with Haar local gates and a phase, '
                 '+-{1e-10,1e-9,2e-9,1e-8} on every coordinate sitting on a boundary, degenerate spectra] + seeded random unitaries (Haar via QR, products of library gates) '
                 'x option flags; non-trivial = input is not the identity; distinct by (routine, options, input matrix)')
@@ -1417,19 +1771,46 @@ def run(ctx):
     ctx.cov['routines'] = ROUTINES
     ctx.set_obligations(coq.compile_props('C15'))
     n = 1 if ctx.tier == 'quick' else 10
+    import time
+    t = [time.time()]
+    timing = ctx.cov.setdefault('seconds_by_stage', {})
+
+    def lap(stage):
+        t.append(time.time())
+        timing[stage] = round(t[-1] - t[-2], 1)
+
     canon_stream(ctx, cirq, 400 * n)
+    lap('canon')
     checks = []
+    global PIPE
+    PIPE = pipe = Pipeline(ctx, checks)
     conv = Conv(cirq, mods)
     inputs = two_qubit_inputs(ctx, cirq, 40 * n, full=ctx.tier != 'quick')
     kak_stream(ctx, cirq, inputs, checks)
+    lap('kak')
+    tick()
     synth2q_stream(ctx, cirq, mods, conv, inputs, checks, 8 if ctx.tier == 'quick' else 2)
+    lap('synth2q')
     class_stream(ctx, cirq, mods, conv, inputs, checks, 8 if ctx.tier == 'quick' else 2)
+    lap('class')
+    tick()
+    known_syc_stream(ctx, cirq, mods, conv, checks, n)
+    lap('known_syc')
+    tick()
     inputs1 = one_qubit_inputs(ctx, cirq, 30 * n)
     one_qubit_stream(ctx, cirq, mods, conv, inputs1, checks)
+    lap('one_qubit')
+    tick()
     linalg_stream(ctx, cirq, inputs1, inputs, checks)
+    lap('linalg')
+    tick()
     nq_stream(ctx, cirq, mods, conv, inputs1, inputs, checks, n)
+    lap('nq')
     ctx.cov['operations_entering_through_cirq_unitary'] = dict(conv.via_unitary)
-    evaluate(ctx, checks)
+    ctx.cov['coq_expressions'] = len(checks)
+    PIPE = None
+    evaluate(ctx, checks, pipe)
+    lap('coq_evaluation_after_the_streams')
 
 
 def replay(ctx, data):
@@ -1443,6 +1824,16 @@ def replay(ctx, data):
         return not bad
     checks = []
     conv = Conv(cirq, mods)
+    if kind == 'synth':                  # cases recorded by add_ops_checks: the routine says which adapter produced them
+        r = data['routine']
+        if r in ROUTINES_1Q:
+            kind = '1q'
+        elif r in ('three_qubit_matrix_to_operations', 'quantum_shannon_decomposition'):
+            kind = 'nq'
+        elif r in ('decompose_multi_controlled_rotation', 'decompose_multi_controlled_x'):
+            kind = 'ctrl'
+            step = 2 ** data['opts'].get('free', 0)
+            data = dict(data, matrix=cmat(from_cmat(data['matrix'])[-2 * step::step, -2 * step::step]))
     if kind == 'kak_decomposition':
         kak_stream(ctx, cirq, [(data['input_class'], from_cmat(data['matrix']), None)], checks)
     elif kind == '1q':
@@ -1459,6 +1850,8 @@ def replay(ctx, data):
         run_cliff(ctx, cirq, mods, conv, checks, data['input_class'], data['n'], [(g, tuple(i)) for g, i in data['spec']])
     elif kind == 'cphase' or (kind == 'synth' and data['routine'] == 'decompose_cphase_into_two_fsim'):
         run_cphase(ctx, cirq, mods, conv, checks, data['input_class'], data['theta'], data['phi'], data['exponent'], data['feasible'])
+    elif kind == 'known':
+        run_known(ctx, cirq, mods, conv, checks, data['spec'])
     elif kind == 'class' and data['routine'] in ROUTINES_CLASS:
         opts = dict(data['opts'])
         if opts.pop('form', None) == 'array':
